@@ -938,6 +938,9 @@ class Note:
         new_note.type = 'a'
         new_note.val = pitch % 12
         new_note.octave = pitch // 12
+        # An absolute note depends on no scale: drop the per-note mode and accidental used to compute its pitch
+        new_note.mode = None
+        new_note.accident = None
 
         return new_note
 
